@@ -55,7 +55,8 @@ struct Streams {
 
 fn streams(thorough: bool) -> Streams {
     let mut r2 = vec![];
-    for k in [0usize, 1, 2, 3, 5] {
+    // 7 units: more than the reader queues ahead, so that its back-pressure wait is reached on valid input too
+    for k in [0usize, 1, 2, 3, 5, 7] {
         r2.push((format!("unc{k}"), scen::stream_unc_units(k), None, k));
     }
     for k in [1usize, 2] {
@@ -90,7 +91,7 @@ fn streams(thorough: bool) -> Streams {
         r2.push(("unc6".into(), scen::stream_unc_units(6), None, 6));
     }
     let mut rl = vec![];
-    for (name, members) in [("m1", vec![100usize]), ("m2", vec![100, 3000]), ("m3e", vec![100, 0, 5]), ("m5", vec![10, 20, 0, 30, 40])] {
+    for (name, members) in [("m1", vec![100usize]), ("m2", vec![100, 3000]), ("m3e", vec![100, 0, 5]), ("m5", vec![10, 20, 0, 30, 40]), ("m7", vec![10, 20, 0, 30, 40, 5, 60])] {
         rl.push((name.to_string(), scen::stream_lzip(&members).0, members.len()));
     }
     Streams { r2, rl }
@@ -108,7 +109,8 @@ fn bound_for(units: usize, thorough: bool) -> u32 {
 
 fn writer_inputs() -> Vec<(String, Vec<u8>, usize)> {
     let mut v = vec![];
-    for n in [0usize, 1, UNIT, UNIT + 1, 2 * UNIT, 3 * UNIT + 5] {
+    // 6 units + 5 bytes: more units than the writers queue ahead (their send_work_unit waits while four are queued)
+    for n in [0usize, 1, UNIT, UNIT + 1, 2 * UNIT, 3 * UNIT + 5, 6 * UNIT + 5] {
         v.push((format!("in{n}"), scen::text_input(n, 17), n.div_ceil(UNIT)));
     }
     v
@@ -162,6 +164,9 @@ fn valid_writers(thorough: bool) -> Vec<(Scenario, u32)> {
                 }
                 if !thorough && workers == 3 {
                     opsets.truncate(1);
+                }
+                if units > 4 {
+                    opsets.retain(|(n, _)| n == "one" || n == "splitunit" || (thorough && n == "flushunit"));
                 }
                 for (on, ops) in opsets {
                     let s = writer(&format!("{name}/{on}"), kind.clone(), input.clone(), ops, workers);
@@ -354,6 +359,16 @@ fn fault_variants(thorough: bool) -> Vec<(Scenario, u32)> {
         s.fail_at = j;
         v.push((s, 1));
     }
+    // --- writers with more units than they queue ahead: sink error at write call j
+    for kind in [Kind::W2, Kind::WL] {
+        for j in [1usize, 2, 4, 6, 7, 8] {
+            for workers in [1u32, 2] {
+                let mut s = writer("in6u+5/one", kind.clone(), scen::text_input(6 * UNIT + 5, 17), vec![], workers);
+                s.fail_at = j;
+                v.push((s, 1));
+            }
+        }
+    }
     // --- writers: sink error at write call j
     for kind in [Kind::W2, Kind::WL] {
         for j in 1..=4 {
@@ -385,6 +400,13 @@ fn drop_variants(thorough: bool) -> Vec<(Scenario, u32)> {
                 s.drop_after = d;
                 v.push((s, if name == "unc5" { b - 1 } else { b }));
             }
+        }
+    }
+    for d in 0..=2 {
+        for workers in [1u32, 2] {
+            let mut s = reader("unc9", Kind::R2 { preset: None }, scen::stream_unc_units(9), None, workers, 4096);
+            s.drop_after = d;
+            v.push((s, b - 1));
         }
     }
     let (lzip3, _) = scen::stream_lzip(&[100, 3000, 5]);
@@ -421,6 +443,14 @@ fn drop_variants(thorough: bool) -> Vec<(Scenario, u32)> {
             let mut s = writer("in2u+5/one-nofinish", kind.clone(), input.clone(), vec![], workers);
             s.finish = false;
             v.push((s, b));
+        }
+        // more units than are queued ahead: dropped without finish after the write / after write + flush; finished
+        for workers in [1u32, 2] {
+            for (on, ops, fin) in [("one-nofinish", vec![], false), ("flush-nofinish", vec![WOp::Write(6 * UNIT + 5), WOp::Flush], false), ("one", vec![], true)] {
+                let mut s = writer(&format!("in6u+5/{on}"), kind.clone(), scen::text_input(6 * UNIT + 5, 17), ops, workers);
+                s.finish = fin;
+                v.push((s, b - 1));
+            }
         }
         // sink error, then drop
         let mut s = writer("in2u+5/one", kind.clone(), scen::text_input(2 * UNIT + 5, 17), vec![], 2);
